@@ -51,6 +51,27 @@ def _unescape_match_bytes(match):
     return b'\n' if char is None or char in b'nN' else char
 
 
+def split_on_unescaped_comma(text):
+    """Split the text of a TEXT list on the commas that are not escaped."""
+    result = []
+    item = []
+    escaped = False
+    for char in text:
+        if escaped:
+            item.append(char)
+            escaped = False
+        elif char == '\\':
+            item.append(char)
+            escaped = True
+        elif char == ',':
+            result.append(''.join(item))
+            item = []
+        else:
+            item.append(char)
+    result.append(''.join(item))
+    return result
+
+
 def foldline(line, limit=75, fold_sep='\r\n '):
     """Make a string folded as defined in RFC5545
     Lines of text SHOULD NOT be longer than 75 octets, excluding the line
@@ -394,6 +415,6 @@ from icalendar.prop import vText
 __all__ = ["Contentline", "Contentlines", "FOLD", "NAME", "NEWLINE",
            "Parameters", "QUNSAFE_CHAR", "QUOTABLE", "UNSAFE_CHAR", "dquote",
            "escape_char", "escape_string", "foldline", "param_value", "q_join",
-           "q_split", "uFOLD", "unescape_char",
+           "q_split", "split_on_unescaped_comma", "uFOLD", "unescape_char",
            "unescape_list_or_string", "unescape_string", "validate_param_value",
            "validate_token"]
